@@ -9,7 +9,7 @@ cd /verif
 D=$(mktemp -d /tmp/c14ring-mut.XXXXXX)
 trap 'rm -rf "$D"' EXIT
 gen() { rm -rf "$D/g"; ./bin/mcgen -noconc -add ring=/verif/checks/c14ring/access.go.txt -out "$D/g" github.com/dapr/kit/ring; }
-runit() { echo "== $1"; VERIF_ROOT="$D/root" go test -tags unit -overlay "$D/g/overlay.json" -vet=off ./checks/c14ring -run TestCheck -v -args -tier quick 2>&1 | grep -v "^ok\|^FAIL\|^---\|^PASS\|^=== RUN\|^exit status" | cut -c1-300 | head -${2:-12}; }
+runit() { echo "== $1"; VERIF_ROOT="$D/root" go test -tags unit -overlay "$D/g/overlay.json" -vet=off ./checks/c14ring -run TestCheck -v -args -tier quick 2>&1 | grep -v "^ok\|^FAIL\|^---\|^PASS\|^=== RUN\|^exit status" | cut -c1-300 | awk '/^FINDING/{k=$0; getline m; n[k]++; if(n[k]==1) first[k]=m; next} {print} END{for(k in n) print k " x" n[k] "\n" first[k]}'; }
 changed() { cmp -s "$D/g/src/ring/ring.go" "$D/orig.go" && { echo "mutation did not apply"; exit 2; } || true; }
 
 gen; cp "$D/g/src/ring/ring.go" "$D/orig.go"
